@@ -77,6 +77,9 @@ AsymBase == [
   ed25519b |-> [kty |-> "OKP", bits |-> 256, crv |-> "Ed25519"],
   ed448a |-> [kty |-> "OKP", bits |-> 456, crv |-> "Ed448"],
   ed448b |-> [kty |-> "OKP", bits |-> 456, crv |-> "Ed448"],
+  \* curves that are not JOSE curves but that OpenSSL knows by name (sizes 224, 256, 384, 512)
+  bp256a |-> [kty |-> "EC", bits |-> 256, crv |-> "brainpoolP256r1"], bp384a |-> [kty |-> "EC", bits |-> 384, crv |-> "brainpoolP384r1"],
+  bp512a |-> [kty |-> "EC", bits |-> 512, crv |-> "brainpoolP512r1"], p224a |-> [kty |-> "EC", bits |-> 224, crv |-> "secp224r1"],
   \* EC keys whose x, y or d has a leading zero byte (fixed-width encodings matter)
   p256zx |-> [kty |-> "EC", bits |-> 256, crv |-> "P-256"], p256zy |-> [kty |-> "EC", bits |-> 256, crv |-> "P-256"],
   p256zd |-> [kty |-> "EC", bits |-> 256, crv |-> "P-256"],
